@@ -58,7 +58,7 @@ typedef struct tmr {
 typedef struct ttrial {
 	tmr_t *tm; int n;
 	dispatch_queue_t qs[3];
-	_Atomic uint64_t must_fire_done, cancel_done, after_done, fires_total, rearms, early;
+	_Atomic uint64_t must_fire_done, cancel_done, after_done, fires_total, rearms, rearms_suspended, rearms_from_target, early;
 	uint64_t salt;
 	vf_profile_t prof;
 } ttrial_t;
@@ -113,7 +113,7 @@ static void timer_handler(void *ctx)
 		if (now < m->start) {
 			atomic_fetch_add(&t->early, 1);
 			char key[96];
-			snprintf(key, sizeof(key), "C11:timer-fired-early:%s%s", vf_clk_names[m->clk], m->gen > 1 ? ":after-set_timer-from-handler" : "");
+			snprintf(key, sizeof(key), "C11:timer-fired-early:%s%s", vf_clk_names[m->clk], m->gen > 1 ? ":after-set_timer" : "");
 			vf_violation(key, "timer handler invoked %llu ns before its start time on the %s clock (start %llu, now %llu, interval %llu, settings generation %d, %s)",
 					(unsigned long long)(m->start - now), vf_clk_names[m->clk], (unsigned long long)m->start, (unsigned long long)now, (unsigned long long)m->interval, m->gen, t->prof.desc);
 		}
@@ -137,16 +137,41 @@ static void timer_handler(void *ctx)
 		atomic_fetch_add_explicit(&t->rearms, 1, memory_order_relaxed);
 		program_timer(m, &m->rng, 0);
 	} else if (c < 30 && m->interval && !atomic_load(&m->cancelled)) {
-		/* suspend from the handler; resume later from a global queue */
+		/* suspend from the handler; resume later from a global queue. Half of the time the settings are
+		 * replaced while the source is suspended (no handler invocation can start before the resume, so
+		 * everything that runs afterwards has to follow the new settings only — even if the old settings
+		 * expired in the meantime) */
 		dispatch_suspend(m->ds);
 		dispatch_source_t ds = m->ds;
-		dispatch_after(dispatch_time(DISPATCH_TIME_NOW, (int64_t)vf_rnd_range(&m->rng, 50000, 3000000)), dispatch_get_global_queue(0, 0), ^{ dispatch_resume(ds); });
+		int reprogram = m->rearm_left > 0 && vf_rnd_n(&m->rng, 2);
+		if (reprogram) { m->rearm_left--; atomic_fetch_add_explicit(&t->rearms_suspended, 1, memory_order_relaxed); }
+		uint64_t rseed = vf_rnd(&m->rng);
+		dispatch_after(dispatch_time(DISPATCH_TIME_NOW, (int64_t)vf_rnd_range(&m->rng, 50000, 3000000)), dispatch_get_global_queue(0, 0), ^{
+			if (reprogram) {
+				while (atomic_load(&m->in_handler)) sched_yield();
+				vf_rng_t r2; vf_rng_seed(&r2, rseed, 1);
+				/* let the old settings expire while suspended now and then */
+				if (vf_rnd_n(&r2, 2)) { struct timespec ts = { 0, (long)vf_rnd_range(&r2, 100000, 2000000) }; nanosleep(&ts, NULL); }
+				program_timer(m, &r2, 0);
+			}
+			dispatch_resume(ds);
+		});
 	} else if (c < 36 && m->interval && f > 2) {
 		atomic_store(&m->cancelled, 1);
 		dispatch_source_cancel(m->ds);
 	}
 	vf_progress();
 	atomic_store(&m->in_handler, 0);
+}
+
+/* settings replaced from an item on the timer's serial target queue: no handler invocation can be running or start
+ * until the item returns, and later invocations follow the new settings only */
+static void rearm_from_target_item(void *ctx)
+{
+	tmr_t *m = ctx;
+	if (atomic_load(&m->cancelled) || atomic_load(&m->cancel_ran) || m->never_fire) return;
+	atomic_fetch_add_explicit(&m->t->rearms_from_target, 1, memory_order_relaxed);
+	program_timer(m, &m->rng, 0);
 }
 
 static void timer_cancel_handler(void *ctx)
@@ -227,8 +252,10 @@ static void run_trial(int idx)
 	int hist = t->n / 2 + 2;
 	for (int k = 0; k < hist; k++) {
 		tmr_t *m = &t->tm[vf_rnd_n(&r, (uint32_t)t->n)];
-		uint32_t c = vf_rnd_n(&r, 3);
-		if (c == 0 && !atomic_load(&m->cancelled)) {
+		uint32_t c = vf_rnd_n(&r, 4);
+		if (c == 3) {
+			if (m->qi == 0 && !atomic_load(&m->cancelled)) dispatch_async_f(t->qs[0], m, rearm_from_target_item);
+		} else if (c == 0 && !atomic_load(&m->cancelled)) {
 			dispatch_suspend(m->ds);
 			vf_spin_ns(vf_rnd_n(&r, 200000));
 			dispatch_resume(m->ds);
@@ -265,6 +292,8 @@ static void run_trial(int idx)
 	vf_count("timers_that_had_to_fire", must);
 	vf_count("timer_fires", atomic_load(&t->fires_total));
 	vf_count("rearms_from_handler", atomic_load(&t->rearms));
+	vf_count("rearms_while_suspended", atomic_load(&t->rearms_suspended));
+	vf_count("rearms_from_serial_target_item", atomic_load(&t->rearms_from_target));
 	vf_count("dispatch_after_blocks", (uint64_t)na);
 	vf_count("items", atomic_load(&t->fires_total) + (uint64_t)na);
 	vf_emit("trial", "\"n\":1,\"sig\":\"tmr-%d-%d-%d-%d\",\"nontrivial\":%s,\"sample\":{\"trial\":%d,\"timers\":%d,\"had_to_fire\":%llu,\"fires\":%llu,\"rearms_from_handler\":%llu,\"dispatch_after\":%d,\"heap_max_entries\":%llu,\"perturb\":\"%s\"}",
